@@ -4,21 +4,26 @@ From Coq Require Import Arith ZifyBool ZifyN ZifyNat Permutation.
 From Rumqtt Require Import Client.VecLemmas Client.Run4 Client.Inv4 Client.Eff4 Client.Flow4 Client.Loop.
 
 (** K7: some TakeRequest of the history handed the state machine a request outside its contract
-    ([op_ok]): a QoS>0 publish while a collision is parked (possible because a non-empty
-    [pending] bypasses the flow-control guard), or a replayed PUBREL whose id is busy (possible
-    after repeated failures: [pending ++ state.clean()] puts fresh-id requests before it). *)
-Definition take_ok (l : lstate) : bool :=
-  if take_enabled l
+    ([op_ok]).  Before the fix: commits a6a5e44 / 0960300 the event loop did that itself: a QoS>0
+    publish while a collision was parked (a non-empty [pending] bypassed the flow-control guard:
+    F7), a replayed PUBREL whose id was busy ([pending ++ state.clean()] put fresh-id requests in
+    front of it after a second failure: F20).  In the current loop it needs a request the client API
+    cannot produce. Parameterised by the loop variant. *)
+Definition take_ok_gen (te : lstate -> bool) (l : lstate) : bool :=
+  if te l
   then match next_request l with Some (r, l1) => op_ok (st l1) (Out r) | None => true end
   else true.
+Definition take_ok := take_ok_gen take_enabled.
 
-Fixpoint k7 (l : lstate) (h : list lop) : bool :=
+Fixpoint k7_gen (te : lstate -> bool) (stp : lstate -> lop -> lres) (l : lstate) (h : list lop) : bool :=
   match h with
   | [] => false
   | o :: r =>
-      (match o with TakeRequest => negb (take_ok l) | _ => false end)
-      || match lnext l o with Some l' => k7 l' r | None => false end
+      (match o with TakeRequest => negb (take_ok_gen te l) | _ => false end)
+      || match lnext_gen stp l o with Some l' => k7_gen te stp l' r | None => false end
   end.
+Definition k7 := k7_gen take_enabled lstep.
+Definition k7_orig := k7_gen take_enabled_orig lstep_orig.
 
 Lemma read_batch_inv pkts : forall s buf, Inv s ->
   match read_batch s pkts buf with Ok (s', _) => Inv s' | Err (s', _) => Inv s' | Panic _ => False end.
@@ -30,7 +35,7 @@ Qed.
 
 Lemma loop_clean_inv l : Inv (st l) ->
   exists l', loop_clean l = Ok l' /\ Inv (st l') /\ connected l' = false /\ chan l' = [] /\ held (st l') = [] /\
-    exists reqs, Permutation reqs (held (st l)) /\ pending l' = pending l ++ reqs ++ filter not_puback (chan l).
+    exists reqs, Permutation reqs (held (st l)) /\ pending l' = reqs ++ pending l ++ filter not_puback (chan l).
 Proof.
   intros I. destruct (clean_returns_held (st l) I) as [s' [reqs [Hc [Hp [Hh I']]]]].
   unfold loop_clean. rewrite Hc. eexists. split; [reflexivity|]. cbn [st connected chan pending].
@@ -44,29 +49,29 @@ Theorem lstep_inv l o : Inv (st l) -> (o = TakeRequest -> take_ok l = true) ->
   | Stepped l' => Inv (st l') | Failed l' _ => Inv (st l') | Disabled => True | LPanic _ => False
   end.
 Proof.
-  intros I Hok. destruct o; cbn [lstep].
+  intros I Hok. unfold take_ok, take_ok_gen in Hok. destruct o; unfold lstep; cbn [lstep_gen]; fold fail_with.
   - exact I.
   - destruct (events (st l)) eqn:E; [exact Logic.I|]. cbn [st]. apply inv_set_events. exact I.
-  - specialize (Hok eq_refl). unfold take_ok in Hok. destruct (take_enabled l); [|exact Logic.I].
+  - specialize (Hok eq_refl). destruct (take_enabled l); [|exact Logic.I].
     destruct (next_request l) as [[r l1]|] eqn:En; [|exact Logic.I].
     assert (Hst : st l1 = st l).
     { unfold next_request in En. destruct (pending l); [destruct (chan l); [discriminate|]|]; inversion En; reflexivity. }
     rewrite Hst in *.
     pose proof (handle_outgoing_packet_inv (st l) r I Hok) as H.
     destruct (handle_outgoing_packet (st l) r) as [[s' [pk|]] | [s' e] | t]; cbn [post] in H; try exact H; try contradiction.
-    unfold fail_with. destruct (loop_clean_inv (with_st l1 s') H) as [l' [Hc [I' _]]]. rewrite Hc. exact I'.
+    unfold fail_with, fail_with_gen. destruct (loop_clean_inv (with_st l1 s') H) as [l' [Hc [I' _]]]. rewrite Hc. exact I'.
   - destruct (arm_ready l && negb _); [|exact Logic.I].
     pose proof (read_batch_inv pkts (st l) [] I) as H.
     destruct (read_batch (st l) pkts []) as [[s' rp] | [s' e] | t]; try exact H; try contradiction.
-    unfold fail_with. destruct (loop_clean_inv (with_st l s') H) as [l' [Hc [I' _]]]. rewrite Hc. exact I'.
+    unfold fail_with, fail_with_gen. destruct (loop_clean_inv (with_st l s') H) as [l' [Hc [I' _]]]. rewrite Hc. exact I'.
   - destruct (arm_ready l); [|exact Logic.I].
     pose proof (read_batch_inv pkts (st l) [] I) as H.
     destruct (read_batch (st l) pkts []) as [[s' rp] | [s' e] | t]; try contradiction;
-      unfold fail_with; destruct (loop_clean_inv (with_st l s') H) as [l' [Hc [I' _]]]; rewrite Hc; exact I'.
+      unfold fail_with, fail_with_gen; destruct (loop_clean_inv (with_st l s') H) as [l' [Hc [I' _]]]; rewrite Hc; exact I'.
   - destruct (arm_ready l); [|exact Logic.I].
     pose proof (outgoing_ping_inv (st l) I) as H. cbn [handle_outgoing_packet].
     destruct (outgoing_ping (st l)) as [[s' [pk|]] | [s' e] | t]; cbn [post] in H; try exact H; try contradiction.
-    unfold fail_with. destruct (loop_clean_inv (with_st l s') H) as [l' [Hc [I' _]]]. rewrite Hc. exact I'.
+    unfold fail_with, fail_with_gen. destruct (loop_clean_inv (with_st l s') H) as [l' [Hc [I' _]]]. rewrite Hc. exact I'.
   - destruct (connected l); [|exact Logic.I].
     destruct (loop_clean_inv l I) as [l' [Hc [I' _]]]. rewrite Hc. exact I'.
   - destruct (connected l); [exact Logic.I|exact I].
@@ -75,10 +80,10 @@ Qed.
 Theorem lrun_inv h : forall l, Inv (st l) -> k7 l h = false -> exists l', lrun l h = Some l' /\ Inv (st l').
 Proof.
   induction h as [| o h IH]; intros l I Hk; [exists l; split; [reflexivity|exact I]|].
-  cbn [k7] in Hk. apply orb_false_iff in Hk. destruct Hk as [Hk1 Hk2].
+  unfold k7 in Hk. cbn [k7_gen] in Hk. fold k7 in Hk. apply orb_false_iff in Hk. destruct Hk as [Hk1 Hk2].
   assert (Hok : o = TakeRequest -> take_ok l = true).
-  { intros ->. destruct (take_ok l); [reflexivity|discriminate]. }
-  pose proof (lstep_inv l o I Hok) as H. cbn [lrun]. unfold lnext in *.
+  { intros ->. unfold take_ok. destruct (take_ok_gen take_enabled l); [reflexivity|discriminate]. }
+  pose proof (lstep_inv l o I Hok) as H. unfold lrun. cbn [lrun_gen]. fold lrun. unfold lnext_gen in *.
   destruct (lstep l o) as [l' | l' e | | t]; try contradiction; apply IH; assumption.
 Qed.
 
@@ -86,50 +91,55 @@ Theorem lrun_inv_init max manual h : 1 <= max -> max <= 65535 -> k7 (linit max m
   exists l, lrun (linit max manual) h = Some l /\ Inv (st l).
 Proof. intros H1 H2. apply lrun_inv. cbn [linit st]. apply inv_init; assumption. Qed.
 
-(** (h): with nothing pending, a channel request is taken iff the window is open and no collision is
-    parked — a pure function of the current state, so the ack that re-opens it re-enables the arm
-    in that same state, with no further stimulus *)
-Theorem take_channel_guard l r rest :
-  connected l = true -> events (st l) = [] -> pending l = [] -> chan l = r :: rest ->
+(** (h): a request — pending or from the channel — is taken iff the window is open and no
+    collision is parked: a pure function of the current state, so the ack that re-opens the window
+    re-enables the arm in that same state, with no further stimulus *)
+Theorem take_guard l :
+  connected l = true -> events (st l) = [] -> (pending l <> [] \/ chan l <> []) ->
   (take_enabled l = true <-> inflight (st l) < max_inflight (st l) /\ collision (st l) = None).
 Proof.
-  intros Hc He Hp Hch. unfold take_enabled, inflight_full. rewrite Hc, He, Hp, Hch. cbn [andb negb orb].
+  intros Hc He Hp. unfold take_enabled, inflight_full. rewrite Hc, He. cbn [andb].
+  assert (Hne : negb (match pending l, chan l with [], [] => true | _, _ => false end) = true).
+  { destruct (pending l), (chan l); cbn; try reflexivity. destruct Hp; congruence. }
+  rewrite Hne, andb_true_r.
   destruct (collision (st l)); cbn [is_some negb]; split.
-  - intros H. rewrite !andb_false_r in H. discriminate.
+  - intros H. rewrite andb_false_r in H. discriminate.
   - intros [_ H]. discriminate.
-  - intros H. rewrite !andb_true_r in H. split; [lia|reflexivity].
-  - intros [H _]. rewrite !andb_true_r. lia.
+  - intros H. rewrite andb_true_r in H. split; [lia|reflexivity].
+  - intros [H _]. rewrite andb_true_r. lia.
 Qed.
 
 (** C11: no session -> nothing carried over is sent *)
 Theorem reconnect_no_session l : connected l = false ->
   exists l', lstep l (Reconnect false) = Stepped l' /\ pending l' = [] /\ wire l' = [] /\ connected l' = true.
-Proof. intros Hc. cbn [lstep]. rewrite Hc. eexists. split; [reflexivity|]. repeat split. Qed.
+Proof. intros Hc. unfold lstep. cbn [lstep_gen]. rewrite Hc. eexists. split; [reflexivity|]. repeat split. Qed.
 
 (** C11 / C02: what a failure leaves for the next connection, and that it is served first *)
 Theorem fail_then_resume l : Inv (st l) -> connected l = true ->
   exists l1 l2 reqs,
     lstep l Fail = Stepped l1 /\ lstep l1 (Reconnect true) = Stepped l2 /\
     Permutation reqs (held (st l)) /\
-    pending l2 = pending l ++ reqs ++ filter not_puback (chan l) /\ chan l2 = [] /\
+    pending l2 = reqs ++ pending l ++ filter not_puback (chan l) /\ chan l2 = [] /\
     held (st l2) = [] /\ wire l2 = [] /\ connected l2 = true /\ Inv (st l2).
 Proof.
   intros I Hc. destruct (loop_clean_inv l I) as [l1 [Hcl [I1 [Hc1 [Hch [Hh [reqs [Hp Hpend]]]]]]]].
-  exists l1. eexists. exists reqs. cbn [lstep]. rewrite Hc, Hcl. split; [reflexivity|]. rewrite Hc1.
+  exists l1. eexists. exists reqs. unfold lstep. cbn [lstep_gen]. rewrite Hc, Hcl. split; [reflexivity|]. rewrite Hc1.
   split; [reflexivity|]. cbn [pending chan st wire connected].
   split; [exact Hp|]. split; [exact Hpend|]. split; [exact Hch|]. split; [exact Hh|]. split; [reflexivity|].
   split; [reflexivity|exact I1].
 Qed.
 
-(** pending is drained before the channel, in order, and a non-empty pending keeps the request arm
-    enabled whatever the window (so retransmission needs no user action) *)
+(** pending is drained before the channel, in order; right after a resume the window is open and
+    nothing is parked, so the first retransmission needs no stimulus at all, and every later one
+    needs only the acknowledgements that open the window ([take_guard]) *)
 Theorem pending_first l r rest :
   pending l = r :: rest ->
   next_request l = Some (r, mkLoop (st l) rest (chan l) (connected l) (wire l) (yielded l)) /\
-  (connected l = true -> events (st l) = [] -> take_enabled l = true).
+  (connected l = true -> events (st l) = [] -> inflight (st l) < max_inflight (st l) -> collision (st l) = None ->
+   take_enabled l = true).
 Proof.
-  intros Hp. unfold next_request, take_enabled. rewrite Hp. split; [reflexivity|].
-  intros -> ->. reflexivity.
+  intros Hp. split; [unfold next_request; rewrite Hp; reflexivity|].
+  intros Hc He Hi Hcol. apply take_guard; auto. left. rewrite Hp. discriminate.
 Qed.
 
 (** every held publish / release is pending after fail + resume *)
@@ -139,20 +149,35 @@ Theorem resume_holds_all l : Inv (st l) -> connected l = true ->
 Proof.
   intros I Hc. destruct (fail_then_resume l I Hc) as [l1 [l2 [reqs [H1 [H2 [Hp [Hpend _]]]]]]].
   exists l1, l2. split; [exact H1|]. split; [exact H2|]. intros r Hr. rewrite Hpend.
-  apply in_or_app. right. apply in_or_app. left.
+  apply in_or_app. left.
   apply (Permutation_in r (Permutation_sym Hp)). apply in_held; assumption.
 Qed.
 
-(** ---- F7, loop half (model-level witness; the current guard) *)
+(** ---- F7, loop half: the loop before commit a6a5e44 ([lstep_orig]); reproduced on the real
+    EventLoop through harness/src/bin/clientloop.rs (build/client/f7loop.txt) *)
 Definition pq1 (tag : N) : request := RPublish (mkPub Q1 0 tag tag).
 Definition f7_loop_history : list lop :=
   [Reconnect true; UserSend (pq1 1); TakeRequest; Yield; UserSend (pq1 2); UserSend (pq1 3);
    Fail; Reconnect true; TakeRequest; Yield; TakeRequest; Yield; TakeRequest; Yield].
 
 Lemma f7_loop_witness :
-  k7 (linit 1 false) f7_loop_history = true /\
+  k7_orig (linit 1 false) f7_loop_history = true /\
+  option_map (fun l => (held (st l), pending l, chan l, wire l)) (lrun_orig (linit 1 false) f7_loop_history)
+  = Some ([RPublish (mkPub Q1 1 1 1); RPublish (mkPub Q1 1 3 3)], [], [], [PPublish (mkPub Q1 1 1 1)])
+  /\ k7 (linit 1 false) f7_loop_history = false /\
   option_map (fun l => (held (st l), pending l, chan l, wire l)) (lrun (linit 1 false) f7_loop_history)
-  = Some ([RPublish (mkPub Q1 1 1 1); RPublish (mkPub Q1 1 3 3)], [], [], [PPublish (mkPub Q1 1 1 1)]).
+  = Some ([RPublish (mkPub Q1 1 1 1)], [pq1 2; pq1 3], [], [PPublish (mkPub Q1 1 1 1)]).
+Proof. vm_compute. repeat split. Qed.
+
+(** ---- F20: a second failure before pending is drained; before commit 0960300 the queued publish
+    overtakes the PUBREL retransmission and is sent under the id (1) whose release is still open *)
+Definition f20_loop_history : list lop :=
+  [Reconnect true; UserSend (RPublish (mkPub Q2 0 1 1)); TakeRequest; Yield; Net [PPubRec 1]; Yield; Yield;
+   UserSend (pq1 2); Fail; Reconnect true; TakeRequest; Yield; Fail; Reconnect true; TakeRequest; Yield].
+
+Lemma f20_loop_witness :
+  option_map wire (lrun_orig (linit 1 false) f20_loop_history) = Some [PPublish (mkPub Q1 1 2 2)]
+  /\ option_map (fun l => (wire l, pending l)) (lrun (linit 1 false) f20_loop_history) = Some ([PPubRel 1], [pq1 2]).
 Proof. vm_compute. split; reflexivity. Qed.
 
 (** a non-trivial history on which K7 is false: window-full backlog, failure, resume, acks *)
